@@ -146,6 +146,7 @@ pub(crate) fn request_headers(r: &mut Rng, valid: bool) -> Vec<H> {
             _ => hs.push((b"cookie".to_vec(), "\u{a0}n\u{2003}=\u{3000}v\u{85}".as_bytes().to_vec())),
         }
     }
+    bare_pseudo_words(r, &mut hs, true);
     if r.chance(1, 20) { let l = *r.pick(&[126usize, 127, 128, 300, 5000]); hs.push((b"x-long".to_vec(), vec![b'a' + (r.below(26) as u8); l])); }
     hs
 }
@@ -162,8 +163,27 @@ pub(crate) fn response_headers(r: &mut Rng, valid: bool) -> Vec<H> {
     let n = r.below(8) as usize;
     for _ in 0..n { hs.push(r.pick(&pool).clone()); }
     if !valid && r.chance(1, 2) { hs.push(h("Server", "Upper")); hs.push(h("server", "second")); }
+    bare_pseudo_words(r, &mut hs, false);
     if r.chance(1, 30) { hs.insert(0, h("early", "x")); }
     hs
+}
+
+/// REGULAR header fields whose names are the pseudo-header words without the colon (and, less often, with two
+/// colons): they must stay ordinary headers -- they neither replace :method / :path / :authority / :scheme /
+/// :status nor leave the ordered list.  Values are chosen so that a confusion changes the result.
+pub(crate) fn bare_pseudo_words(r: &mut Rng, hs: &mut Vec<H>, request: bool) {
+    let n = if r.chance(1, 3) { r.range(1, 3) } else { 0 };
+    for _ in 0..n {
+        let (name, value): (&str, &str) = if request {
+            *r.pick(&[("method", "queue.notify"), ("method", "DELETE"), ("path", "/internal/admin"), ("path", ""), ("authority", "evil.example"),
+                      ("scheme", "ftp"), ("status", "502"), ("status", "200 OK"), ("method", ""), ("authority", "")])
+        } else {
+            *r.pick(&[("status", "502"), ("status", "200 OK"), ("status", ""), ("status", "99999"), ("method", "GET"), ("path", "/x"), ("scheme", "https"), ("authority", "a")])
+        };
+        let nm = if r.chance(1, 6) { format!("::{}", name) } else { name.to_string() };
+        let pos = if r.chance(1, 4) { r.below(hs.len() as u64 + 1) as usize } else { hs.len() };      // mostly after the pseudo-headers
+        hs.insert(pos, h(&nm, value));
+    }
 }
 
 pub(crate) fn enc_opts(r: &mut Rng) -> EncOpts {
@@ -250,6 +270,19 @@ fn gen(r: &mut Rng, tier: &Tier, out: &mut Vec<String>) {
                 for c1 in 0..=block.len() { for c2 in c1..=block.len() { if (c1 + c2) % tier.scale(5, 1) == 0 { let mut f2 = Framing::plain(); f2.cuts = vec![c1, c2]; push_a(out, is_req, &[], 3, &items, &f2, &[]); } } }
             }
             for e in [1u8, 2, 0x10, 0x40, 0x80, 0xd3] { let mut f2 = Framing::plain(); f2.extra_h = e; f2.extra_c = e & 0xfb; f2.cuts = vec![1]; push_a(out, is_req, &[], 1, &items, &f2, &[]); }
+        }
+    }
+    // every pseudo-header word as the name of a regular header (bare, and with two colons), requests and responses
+    for (name, value) in [("method", "queue.notify"), ("path", "/other"), ("authority", "evil.example"), ("scheme", "ftp"), ("status", "502"), ("status", "200 OK"), ("::path", "/x"), ("::status", "502")] {
+        for pos_last in [true, false] {
+            let mut q = vec![h(":method", "POST"), h(":path", "/"), h(":scheme", "https"), h(":authority", "a.example"), h("x-k", "v")];
+            let mut p = vec![h(":status", "404"), h("x-k", "v")];
+            if pos_last { q.push(h(name, value)); p.push(h(name, value)); } else { q.insert(4, h(name, value)); p.insert(1, h(name, value)); }
+            for (is_req, hs) in [(true, q), (false, p)] {
+                let mut t = Table::new();
+                let items = choose_items(r, &hs, &EncOpts { huffman: 50, indexing: 50, use_index: 100, size_updates: 0, avoid15: true }, &mut t);
+                push_a(out, is_req, &[], 1, &items, &Framing::plain(), &[]);
+            }
         }
     }
     // every static-table entry as indexed field and as indexed name, plain and Huffman
